@@ -3,7 +3,7 @@ validation) and run the oracle (replay of counterexamples on the real code)."""
 import os, re, json, subprocess, time
 from tools.vrun import sh, ROOT, Break
 
-CXXFLAGS = ['-std=c++20', '-O1', '-w', '-I/repo/src', '-I/repo/src/third_party', '-I' + os.path.join(ROOT, 'shim')]
+CXXFLAGS = ['-std=c++20', '-O1', '-w', '-DNATIVE', '-I/repo/src', '-I/repo/src/third_party', '-I' + os.path.join(ROOT, 'shim')]
 
 
 def build_c(src_c, out_o, defs=()):
